@@ -109,20 +109,12 @@ def descr (sel : Bool) : M → V → R
   | .listwise fo ms, v => match pyIter v with
       | none => none
       | some xs => descrParts fo (somes (matchZip sel ms (xs.map some))) (descrZip sel ms (xs.map some))
-  | .setwise ka kb ms, v => match pyIter v with
+  | .setwise _ _ ms, v => match pyIter v with
       | none => none
       | some xs =>
         -- only the branch with left-over matchers *and* values re-matches (listwise) and describes those
-        -- mismatches; the other branches build a plain message
-        match greedy (fun x => matchRow sel ms x) xs (orderIdx (if sel then ka else kb) ms.length) [] with
-        | .error _ => none
-        | .ok (rem, nm) =>
-          if nm.isEmpty || rem.isEmpty then none
-          else
-            let c := min rem.length nm.length
-            descrParts false
-              (List.zipWith (fun i x => (matchRow sel ms x).getD i .mismatch) (rem.take c) (nm.take c))
-              (List.zipWith (fun i x => (descrRow sel ms x).getD i none) (rem.take c) (nm.take c))
+        -- mismatches; which pairs are left over depends on the pairing found: worst case over all pairs
+        xs.foldr (fun x r => seqR (descrParts false (matchRow sel ms x) (descrRow sel ms x)) r) none
   | .structure attrs ms, v =>
       descrParts false (somes (matchZip sel ms (attrs.map (getAttr v)))) (descrZip sel ms (attrs.map (getAttr v)))
   | .dict _ ks ms, v => match v with
